@@ -246,7 +246,28 @@ def value_of(ctx: list[Frame], v, visited, where, mode="nix"):
 
 
 def expectation(prog: Program, path: list[str], mode: str = "nix"):
-    """('value', id) | ('set', ids) | ('unbound',) | ('cycle',)"""
+    """('value', id) | ('set', ids) | ('unbound',) | ('cycle',)
+
+    A path may end in ["->", key]: resolve the reference to a set first, then look `key` up in
+    that set (its values are evaluated where the set is written)."""
+    if "->" in path:
+        i = path.index("->")
+        base, kk = path[:i], path[i + 1]
+        try:
+            frames, v = frames_for(prog, base)
+            res = evaluate(frames, len(frames) - 1, base[-1], frozenset(), mode)
+            if res[0] != "set" or kk not in res[2].bindings:
+                return ("unbound",)
+            if mode == "pinned":
+                inner = frames + [Frame("rec", res[2].bindings)]
+            else:
+                inner = list(res[1]) + list(res[2].wrappers) + [_as_frame(res[2])]
+            res2 = evaluate(inner, len(inner) - 1, kk, frozenset(), mode)
+        except (Unbound, MissingArgument):
+            return ("unbound",)
+        except (Cycle, RecursionError):
+            return ("cycle",)
+        return ("value", res2[1]) if res2[0] == "value" else ("set", ids_of(res2[2]))
     try:
         frames, v = frames_for(prog, path)
     except MissingArgument:
@@ -485,11 +506,27 @@ def queries(prog: Program) -> list[list[str]]:
             elif isinstance(v, SetExpr):
                 walk(v, prefix + [k])
     walk(prog.root, [])
+    if prog.call is None:
+        # dereference through an alias: a reference that denotes a let-bound set, then a key of it
+        for q in list(out):
+            try:
+                frames, v = frames_for(prog, q)
+                res = evaluate(frames, len(frames) - 1, q[-1], frozenset())
+            except Exception:  # noqa: BLE001
+                continue
+            if res[0] == "set":
+                for kk, vv in res[2].bindings.items():
+                    if isinstance(vv, (int, Ref)):
+                        out.append(q + ["->", kk])
     return out
 
 
 def features(prog: Program, path: list[str]) -> dict:
     """Mechanism-level description of what the lookup has to get right (witness keys)."""
+    if "->" in path:
+        f = features(prog, path[: path.index("->")])
+        f["via"] = "deref-" + f.get("via", "?")
+        return f
     try:
         frames, v = frames_for(prog, path)
     except MissingArgument:
